@@ -195,14 +195,32 @@ impl Display for Value {
     }
 }
 
+/// Error for date/duration arithmetic whose result chrono cannot represent.
+fn out_of_range<L: fmt::Debug, R: fmt::Debug>(left: L, op: &'static str, right: R) -> EvalError {
+    EvalError::OutOfRange {
+        left: format!("{:?}", left),
+        op,
+        right: format!("{:?}", right),
+    }
+}
+
 impl Add for Value {
     type Output = Result<Value, EvalError>;
 
     fn add(self, rhs: Self) -> Self::Output {
         match (self, rhs) {
-            (Value::DateTime(ldt), Value::Duration(rd)) => Ok(Value::DateTime(ldt.add(rd))),
-            (Value::Duration(ld), Value::DateTime(rdt)) => Ok(Value::DateTime(rdt.add(ld))),
-            (Value::Duration(ld), Value::Duration(rd)) => Ok(Value::Duration(ld.add(rd))),
+            (Value::DateTime(ldt), Value::Duration(rd)) => ldt
+                .checked_add_signed(rd)
+                .map(Value::DateTime)
+                .ok_or_else(|| out_of_range(ldt, "+", rd)),
+            (Value::Duration(ld), Value::DateTime(rdt)) => rdt
+                .checked_add_signed(ld)
+                .map(Value::DateTime)
+                .ok_or_else(|| out_of_range(ld, "+", rdt)),
+            (Value::Duration(ld), Value::Duration(rd)) => ld
+                .checked_add(&rd)
+                .map(Value::Duration)
+                .ok_or_else(|| out_of_range(ld, "+", rd)),
             (Value::Float(lf), Value::Float(rf)) => Ok(Value::from_float((lf + rf).0)),
             (Value::Int(li), Value::Int(ri)) => match li.checked_add(ri) {
                 Some(res) => Ok(Value::Int(res)),
@@ -218,9 +236,15 @@ impl Sub for Value {
 
     fn sub(self, rhs: Self) -> Self::Output {
         match (self, rhs) {
-            (Value::DateTime(ldt), Value::Duration(rf)) => Ok(Value::DateTime(ldt.sub(rf))),
+            (Value::DateTime(ldt), Value::Duration(rf)) => ldt
+                .checked_sub_signed(rf)
+                .map(Value::DateTime)
+                .ok_or_else(|| out_of_range(ldt, "-", rf)),
             (Value::DateTime(ldt), Value::DateTime(rdt)) => Ok(Value::Duration(ldt.sub(rdt))),
-            (Value::Duration(ld), Value::Duration(rd)) => Ok(Value::Duration(ld.sub(rd))),
+            (Value::Duration(ld), Value::Duration(rd)) => ld
+                .checked_sub(&rd)
+                .map(Value::Duration)
+                .ok_or_else(|| out_of_range(ld, "-", rd)),
             (Value::Float(lf), Value::Float(rf)) => Ok(Value::from_float((lf - rf).0)),
             (Value::Int(li), Value::Int(ri)) => match li.checked_sub(ri) {
                 Some(res) => Ok(Value::Int(res)),
@@ -236,8 +260,16 @@ impl Mul for Value {
 
     fn mul(self, rhs: Self) -> Self::Output {
         match (self, rhs) {
-            (Value::Duration(ld), Value::Int(ri)) => Ok(Value::Duration(ld.mul(ri as i32))),
-            (Value::Int(li), Value::Duration(rd)) => Ok(Value::Duration(rd.mul(li as i32))),
+            (Value::Duration(ld), Value::Int(ri)) => i32::try_from(ri)
+                .ok()
+                .and_then(|factor| ld.checked_mul(factor))
+                .map(Value::Duration)
+                .ok_or_else(|| out_of_range(ld, "*", ri)),
+            (Value::Int(li), Value::Duration(rd)) => i32::try_from(li)
+                .ok()
+                .and_then(|factor| rd.checked_mul(factor))
+                .map(Value::Duration)
+                .ok_or_else(|| out_of_range(li, "*", rd)),
             (Value::Float(lf), Value::Float(rf)) => Ok(Value::from_float((lf * rf).0)),
             (Value::Int(li), Value::Int(ri)) => match li.checked_mul(ri) {
                 Some(res) => Ok(Value::Int(res)),
@@ -253,7 +285,11 @@ impl Div for Value {
 
     fn div(self, rhs: Self) -> Self::Output {
         match (self, rhs) {
-            (Value::Duration(ld), Value::Int(ri)) => Ok(Value::Duration(ld.div(ri as i32))),
+            (Value::Duration(ld), Value::Int(ri)) => i32::try_from(ri)
+                .ok()
+                .and_then(|divisor| ld.checked_div(divisor))
+                .map(Value::Duration)
+                .ok_or_else(|| out_of_range(ld, "/", ri)),
             (left, right) => left.binary_op(&f64::div, "/", &right),
         }
     }
